@@ -129,3 +129,47 @@ func isParamNamed(name string) func(ssa.Value) bool {
 		return false
 	}
 }
+
+// isCallReaching: a call to one of the named callees, or to a circl function whose body (followed through
+// static calls up to the given depth) contains such a call on some path.
+func (p *Program) isCallReaching(depth int, callees ...string) func(ssa.Instruction) bool {
+	set := map[string]bool{}
+	for _, n := range callees {
+		set[normName(n)] = true
+	}
+	memo := map[*ssa.Function]map[int]bool{}
+	var reaches func(f *ssa.Function, d int) bool
+	reaches = func(f *ssa.Function, d int) bool {
+		if f == nil || f.Blocks == nil || d < 0 {
+			return false
+		}
+		if m, ok := memo[f]; ok {
+			if v, ok := m[d]; ok {
+				return v
+			}
+		} else {
+			memo[f] = map[int]bool{}
+		}
+		memo[f][d] = false
+		for _, b := range f.Blocks {
+			for _, in := range b.Instrs {
+				ci, ok := in.(ssa.CallInstruction)
+				if !ok {
+					continue
+				}
+				if set[normName(p.staticCalleeName(ci.Common()))] || reaches(ci.Common().StaticCallee(), d-1) {
+					memo[f][d] = true
+					return true
+				}
+			}
+		}
+		return false
+	}
+	return func(in ssa.Instruction) bool {
+		ci, ok := in.(ssa.CallInstruction)
+		if !ok {
+			return false
+		}
+		return set[normName(p.staticCalleeName(ci.Common()))] || reaches(ci.Common().StaticCallee(), depth-1)
+	}
+}
